@@ -92,6 +92,7 @@ structure LaxSp where
   wsL : Str := []
   wsR : Str := []
   plus : Bool := false
+  deriving DecidableEq, Repr
 
 def LaxSp.WF (ls : LaxSp) : Prop := (∀ c ∈ ls.wsL, isWsInt c = true) ∧ (∀ c ∈ ls.wsR, isWsInt c = true)
 
